@@ -1304,12 +1304,14 @@ class XsdElement(XsdComponent, ParticleMixin,
         e1: XsdElement = self
         e2 = other
         if self.name != other.name:
-            for e1 in self.iter_substitutes():
-                if e1.name == other.name:
+            for e in self.iter_substitutes():
+                if e.name == other.name:
+                    e1 = e
                     break
             else:
-                for e2 in other.iter_substitutes():
-                    if e2.name == self.name:
+                for e in other.iter_substitutes():
+                    if e.name == self.name:
+                        e2 = e
                         break
                 else:
                     return True
@@ -1483,12 +1485,14 @@ class Xsd11Element(XsdElement):
         e1: XsdElement = self
         e2 = other
         if self.name != other.name:
-            for e1 in self.iter_substitutes():
-                if e1.name == other.name:
+            for e in self.iter_substitutes():
+                if e.name == other.name:
+                    e1 = e
                     break
             else:
-                for e2 in other.iter_substitutes():
-                    if e2.name == self.name:
+                for e in other.iter_substitutes():
+                    if e.name == self.name:
+                        e2 = e
                         break
                 else:
                     return True
